@@ -59,6 +59,10 @@ class Take:
         self.meta = {}
         self.text = None
         self.unsupported = []
+        self.contract_file = None
+        m = re.search(r"(?:^|,)\s*stub=([\w]+)", opts)
+        self.stub = m.group(1) if m else None
+        self.opts = re.sub(r"(?:^|,)\s*stub=[\w]+", "", opts).strip(",")
 
 
 def parse_unit(path):
@@ -86,6 +90,19 @@ def parse_unit(path):
                 unit["chunks"].append(("take", cur_take, origin))
             elif d == "end":
                 cur_take, cur_sec = None, None
+            elif d == "from" and cur_take is not None:
+                # contract sections kept in a separate file (shared between the verifying unit and stubs)
+                cpath = os.path.join(VERIF, rest)
+                csec = None
+                for cl in open(cpath).read().split("\n"):
+                    cm = re.match(r"\s*//@\s*(\w+)\s*(.*)$", cl)
+                    if cm:
+                        csec = (cm.group(1) + " " + cm.group(2)).strip()
+                        cur_take.sections.setdefault(csec, "")
+                    elif csec is not None:
+                        cur_take.sections[csec] += cl + "\n"
+                cur_take.contract_file = rest
+                cur_sec = None
             elif d == "mutant":
                 parts = [p.strip() for p in rest.split("|")]
                 unit["mutants"].append(parts)
@@ -193,6 +210,12 @@ def splice(take, mode, mutant=None):
             raise Undecided(f"mutant {mutant[0]}: pattern does not match extracted text of {take.key}")
         text = new
     is_fn = "__VERIF_CONTRACT__" in text
+    if is_fn and take.stub:
+        # assumed here, verified in unit <take.stub> against the same contract file
+        head = text[:text.index("__VERIF_CONTRACT__")]
+        attr = get("attr")
+        text = "#[verifier::external_body] // stub: verified in unit %s\n" % take.stub + head + get("contract") + "\n{ unimplemented!() }"
+        return text
     if is_fn:
         attr = get("attr")
         contract = get("contract")
@@ -201,7 +224,9 @@ def splice(take, mode, mutant=None):
             text = attr + "\n" + text
         # canaries: reachability of the function end (or entry) under the contracts
         has_exit = "__verif_exit !();" in text
-        if mode == "canary":
+        if mode == "canary" and "exec const" in text.split("\n")[0]:
+            pass
+        elif mode == "canary":
             if has_exit:
                 text = text.replace("__verif_exit !();", f"assert(false); // [canary-exit:{take.key}]", 1)
                 used.add("exit")
@@ -226,6 +251,7 @@ def splice(take, mode, mutant=None):
                 text = text.replace(ph, get(f"{kind} {n}"))
         if "__verif_exit !();" in text:
             text = text.replace("__verif_exit !();", get("exit"), 1)
+        text = re.sub(r"__verif_stmt_(\d+) !\(\);", lambda m: get("after_stmt " + m.group(1)), text)
         # nested fns
         for name in [x for x in take.meta.get("nested", "").split(",") if x]:
             ph = f"__verif_nested_{name} !();"
